@@ -31,6 +31,17 @@ const codejenPath = "github.com/grafana/codejen"
 // derived from the loop key, no direct outer store other than the result slice
 // and per-iteration helper state); what is NOT re-derived is that the helpers
 // called from the body keep no state across iterations. One reason per entry.
+// c03ExemptAllowedState: for an exempt emission loop, the outer state its callees may
+// write ("<root>.<first field>"; "*" = anything). Helper state re-assigned at the top of the
+// body is always allowed. Anything else is reported: it would carry data across iterations.
+var c03ExemptAllowedState = map[string][]string{
+	"internal/codegen.Pipeline.Run range targetsByLanguage":                        {"*"},
+	"internal/jennies/python.Builder.Generate range buildersByPackage":             {"jenny.apiRefCollector"},
+	"internal/jennies/java.Factory.Generate range factoryByPackage":                {},
+	"internal/jennies/php.Factory.Generate range factoryByPackage":                 {},
+	"internal/jennies/common.APIReference.referenceForSchema range virtualObjects": {},
+}
+
 var c03EmissionExemptions = map[string]string{
 	"internal/codegen.Pipeline.Run range targetsByLanguage":                "the body is a whole language back-end; iterations are independent iff C07's clauses hold (passes run on copies, no package-level state, per-language Language values); every output path is prefixed by the language's directory; all files go through the path-keyed codejen.FS",
 	"internal/jennies/python.Builder.Generate range buildersByPackage":     "one file per package; import map, type formatters and text buffer are re-created at the top of the body; the API-reference collector is a map keyed by builder/package reference and buildersByPackage partitions builders by package",
@@ -337,7 +348,27 @@ func (st *c03State) classify(s mapSite) {
 		}
 		if !f.Direct || strings.HasPrefix(f.Kind, "external:") {
 			if exempt && emission {
-				idiom("I5 callee effects not re-derived (exemption table: " + exemptReason + ")")
+				allowed := false
+				state := "?"
+				if f.RootObj != nil {
+					state = f.RootObj.Name()
+					if len(f.Path) > 0 {
+						state += "." + f.Path[0].Name()
+					}
+				}
+				for _, a := range c03ExemptAllowedState[name] {
+					if a == "*" || a == state {
+						allowed = true
+					}
+				}
+				if f.RootObj == nil && f.Root == rootUnknown && (f.ArgRooted || strings.HasPrefix(f.Kind, "dynamic:")) {
+					allowed = true // writes through arguments of per-language closures: per-iteration values
+				}
+				if allowed {
+					idiom("I5 callee effects not re-derived (exemption table: " + exemptReason + ")")
+				} else {
+					addS(f.Pos, "callee writes outer state %s that is neither re-created at the top of the loop body nor in the exemption table's allowed state (%s): data may carry over between iterations in map order", state, f.String())
+				}
 				continue
 			}
 			st.classifyCallFact(s, f, addS, idiom, omapLeaks)
@@ -572,9 +603,82 @@ func (st *c03State) sortedAfter(s mapSite, target ast.Expr, parents map[ast.Node
 		return "", false
 	}
 	if firstCall != nil && isSortCall(info, firstCall) && len(firstCall.Args) > 0 && sameAccessPath(info, firstCall.Args[0], target) {
+		if len(firstCall.Args) >= 2 {
+			if !plainKeyComparator(info, firstCall.Args[1]) {
+				return "", false
+			}
+		}
 		return "sorted by " + exprString(firstCall.Fun) + " before any other use", true
 	}
 	return "", false
+}
+
+// plainKeyComparator: the comparator is `return a.K < b.K` (or >, or
+// strings.Compare / cmp.Compare of the two), both sides being the same
+// selector path with no function applied to the key. A comparator that
+// transforms the key (ToLower, len, …) can tie on distinct keys, and an
+// unstable sort then lets the map iteration order through.
+func plainKeyComparator(info *types.Info, e ast.Expr) bool {
+	fl, ok := ast.Unparen(e).(*ast.FuncLit)
+	if !ok {
+		return false
+	}
+	if len(fl.Body.List) != 1 {
+		return false
+	}
+	rs, ok := fl.Body.List[0].(*ast.ReturnStmt)
+	if !ok || len(rs.Results) != 1 {
+		return false
+	}
+	var a, b ast.Expr
+	switch x := ast.Unparen(rs.Results[0]).(type) {
+	case *ast.BinaryExpr:
+		if x.Op != token.LSS && x.Op != token.GTR {
+			return false
+		}
+		a, b = x.X, x.Y
+	case *ast.CallExpr:
+		fn := callee(info, x)
+		if fn == nil || fn.Name() != "Compare" || len(x.Args) != 2 {
+			return false
+		}
+		a, b = x.Args[0], x.Args[1]
+	default:
+		return false
+	}
+	hasCall := func(e ast.Expr) bool {
+		found := false
+		ast.Inspect(e, func(n ast.Node) bool {
+			if _, ok := n.(*ast.CallExpr); ok {
+				found = true
+			}
+			return !found
+		})
+		return found
+	}
+	if hasCall(a) || hasCall(b) {
+		return false
+	}
+	// same shape on both sides: strip the differing index/param identifiers
+	shape := func(e ast.Expr) string {
+		var parts []string
+		for {
+			e = ast.Unparen(e)
+			switch x := e.(type) {
+			case *ast.SelectorExpr:
+				parts = append(parts, x.Sel.Name)
+				e = x.X
+				continue
+			case *ast.IndexExpr:
+				parts = append(parts, "[]")
+				e = x.X
+				continue
+			}
+			break
+		}
+		return strings.Join(parts, ".")
+	}
+	return shape(a) == shape(b)
 }
 
 func (st *c03State) isReturnedUnsorted(s mapSite, obj types.Object) bool {
